@@ -62,6 +62,9 @@ type CompScenario struct {
 	// CbFail: child CbFail-1 is made to fail (real error) from inside the callback of the first Reload(), and the
 	// callback then waits for Run() to return: a failure propagates while a reload is parked in user code
 	CbFail int `json:"cbFail,omitempty"`
+	// StopErr: child StopErr-1 answers Stop() by returning a real error from its Run (a listener that reports "closed
+	// while serving"): during the composite's own shutdown that is not a failure of a Running composite
+	StopErr int `json:"stopErr,omitempty"`
 	// SlowPublish: the publication of the state Reloading to the state subscribers is delayed by 3 ms (see publishDelay)
 	SlowPublish bool `json:"slowPublish,omitempty"`
 }
@@ -83,6 +86,7 @@ type compChild struct {
 	teardown      chan struct{}
 	live          *atomic.Int32
 	pending       atomic.Int32 // Run invoked, child not yet registered as running (slow starters)
+	stopErr       bool         // Run returns a real error when it ends because of Stop()
 }
 
 func (c *compChild) String() string { return c.spec.Name }
@@ -119,6 +123,9 @@ func (c *compChild) Run(ctx context.Context) error {
 	case <-ctx.Done():
 		out = "c"
 	case <-stopCh:
+		if c.stopErr {
+			out = "e"
+		}
 	case o := <-c.failCh:
 		out = o
 	case <-c.teardown:
@@ -201,7 +208,7 @@ func runCompScenario(sc CompScenario) compResult {
 	runnables := make([]supervisor.Runnable, len(sc.Pool))
 	for i, sp := range sc.Pool {
 		children[i] = &compChild{idx: i, spec: sp, rec: rec, stopCh: make(chan struct{}), started: make(chan struct{}), done: make(chan struct{}),
-			failCh: make(chan string, 1), teardown: teardown, live: &live}
+			failCh: make(chan string, 1), teardown: teardown, live: &live, stopErr: sc.StopErr == i+1}
 		switch sp.Cap {
 		case "wc":
 			runnables[i] = childWC{children[i]}
@@ -696,6 +703,11 @@ func genCompScenario(r interface {
 }
 
 var compCorpus = []CompScenario{
+	// a child that answers Stop() with a real error: Run() of the stopped composite returns nil and the state is Stopped
+	{Pool: []ChildSpec{{"a", "f", "wc", 3, 0}, {"b", "f", "wc", 0, 0}},
+		Configs: []CompConfig{{"ok", []CompEntry{{0, 1}, {1, 1}}}}, Ops: []CompOp{{0, "stop"}}, StopErr: 1, Sequential: true},
+	{Pool: []ChildSpec{{"a", "l", "wc", 2, 0}, {"b", "l", "r", 2, 0}},
+		Configs: []CompConfig{{"ok", []CompEntry{{0, 1}, {1, 1}}}}, Ops: []CompOp{{0, "cancel"}}, StopErr: 2},
 	// a child fails while a Reload() is parked in the configuration callback: Run() returns the failure without waiting
 	// for the reload
 	{Pool: []ChildSpec{{"a", "f", "wc", 0, 0}, {"b", "f", "wc", 0, 0}},
